@@ -205,6 +205,13 @@ def check(case):
             continue
         if kind == "w":
             _, side, n = op
+            # (a write is cut into records of min(user, negotiated) bytes:
+            # at most 3000 records per write, so that tiny record sizes with
+            # the pure-Python ciphers stay within the per-case CPU budget)
+            per = max(1, min(user[side], hard[side]))
+            if n > 3000 * per:
+                n = 3000 * per + n % per
+                labels.append("write-capped")
             data = prg(b"C01/%d/%d" % (case.get("salt", 0), i), n)
             fill = case.get("fill")
             if fill == "zeros":
